@@ -25,7 +25,7 @@ import (
 // <pkt> = pi:spi:src:dest:ttl:hint:payload:ext ; <sizes> = comma list of chunk sizes, cycled.
 
 func init() {
-	Register(&Prop{ID: "C30", Gen: c30Gen, New: func() Runner { return c30Runner{} }})
+	Register(&Prop{ID: "C30", Gen: c30Gen, New: func() Runner { return &c30Runner{} }})
 }
 
 type c30Pkt struct {
@@ -135,8 +135,19 @@ func c30Write(ps []c30Pkt) ([]byte, error) {
 	var buf bytes.Buffer
 	pw := network.NewPacketWriter(&buf)
 	for _, p := range ps {
-		if err := pw.WritePacket(p.build()); err != nil {
+		// the packet aliases the caller's payload/ext slices: hand over copies and
+		// scribble over them once WritePacket has returned (the bytes are on the stream by then)
+		q := p
+		q.payload = append([]byte{}, p.payload...)
+		q.ext = append([]byte{}, p.ext...)
+		q.src = append([]byte{}, p.src...)
+		if err := pw.WritePacket(q.build()); err != nil {
 			return nil, err
+		}
+		for _, b := range [][]byte{q.payload, q.ext, q.src} {
+			for i := range b {
+				b[i] ^= 0xa5
+			}
 		}
 	}
 	return buf.Bytes(), nil
@@ -156,13 +167,69 @@ func (g c30Got) String() string {
 	return fmt.Sprintf("%d:%d:%s:%d:%d:%d:%d:%d:%s:%s", g.pi, g.spi, hx(g.src), g.dest, g.ttl, g.length, g.hash, g.info, hx(g.payload), hx(g.ext))
 }
 
-func c30Read(stream []byte, sizes []int) ([]c30Got, string) {
-	pr := network.NewPacketReader(&c30Chunker{data: append([]byte{}, stream...), sizes: sizes})
-	var got []c30Got
+// c30Held: a packet returned by ReadPacket that the consumer keeps, with the
+// field values it had at the moment it was returned.
+type c30Held struct {
+	pkt  *network.Packet
+	snap c30Got
+	big  bool // payload bytes not kept in snap
+}
+
+func c30Extract(pkt *network.Packet, deep bool) c30Got {
+	var g c30Got
+	g.pi, g.spi, g.src, g.dest, g.ttl, g.length, g.hash, g.info, g.payload, g.ext = network.VerifC30Fields(pkt)
+	if deep {
+		g.src = append([]byte{}, g.src...)
+		g.payload = append([]byte{}, g.payload...)
+		g.ext = append([]byte{}, g.ext...)
+	}
+	return g
+}
+
+func (h c30Held) unchanged(payloadToo bool) (bool, string) {
+	g := c30Extract(h.pkt, false)
+	s := h.snap
+	switch {
+	case !bytes.Equal(g.src, s.src):
+		return false, fmt.Sprintf("src %x -> %x", s.src, g.src)
+	case g.pi != s.pi || g.spi != s.spi || g.dest != s.dest || g.ttl != s.ttl:
+		return false, "protocol/dest/ttl"
+	case g.length != s.length || g.hash != s.hash || g.info != s.info:
+		return false, "length/hash/extendInfo"
+	case len(g.payload) != len(s.payload) || len(g.ext) != len(s.ext):
+		return false, "payload/ext length"
+	case payloadToo && (!bytes.Equal(g.payload, s.payload) || !bytes.Equal(g.ext, s.ext)):
+		return false, "payload/ext bytes"
+	}
+	return true, ""
+}
+
+const c30HeldKey = "held-packet-changed-after-later-reads"
+
+// c30Read reads packets until the first error and KEEPS every returned packet;
+// only after the stream is finished are the fields taken from the held packets
+// (a consumer that queues packets sees them then), and each is compared with
+// what it looked like when ReadPacket returned it.
+func (r *c30Runner) read(stream []byte, sizes []int, o *Oracle) ([]c30Got, string) {
+	src := &c30Chunker{data: append([]byte{}, stream...), sizes: sizes}
+	// reuse one PacketReader across streams (Reset) for every other stream
+	var pr *network.PacketReader
+	if r != nil && r.pr != nil && len(stream)%2 == 0 {
+		pr = r.pr
+		pr.Reset(src)
+		o.Count("reader-reused-after-Reset")
+	} else {
+		pr = network.NewPacketReader(src)
+		if r != nil {
+			r.pr = pr
+		}
+	}
+	var held []c30Held
+	st := ""
 	for {
 		pkt, err := pr.ReadPacket()
 		if err != nil {
-			st := "err:" + err.Error()
+			st = "err:" + err.Error()
 			switch {
 			case err == io.EOF:
 				st = "eof"
@@ -171,11 +238,47 @@ func c30Read(stream []byte, sizes []int) ([]c30Got, string) {
 			case strings.HasPrefix(err.Error(), "invalid hashOfPacket"):
 				st = "badhash"
 			}
-			return got, st
+			break
 		}
-		var g c30Got
-		g.pi, g.spi, g.src, g.dest, g.ttl, g.length, g.hash, g.info, g.payload, g.ext = network.VerifC30Fields(pkt)
-		got = append(got, g)
+		held = append(held, c30Held{pkt: pkt, snap: c30Extract(pkt, true)})
+	}
+	got := make([]c30Got, len(held))
+	for i, h := range held {
+		ok, what := h.unchanged(true)
+		if o != nil {
+			o.Check(ok, c30HeldKey, "packet #%d of %d changed after later packets were read: %s", i, len(held), what)
+		}
+		got[i] = c30Extract(h.pkt, false)
+	}
+	if r != nil {
+		r.hold(held)
+	}
+	return got, st
+}
+
+// hold keeps the most recent packets across ops (payload bytes only for small ones).
+func (r *c30Runner) hold(held []c30Held) {
+	for _, h := range held {
+		if len(h.snap.payload) > 256 {
+			h.snap.payload = make([]byte, len(h.snap.payload)) // length only
+			h.big = true
+		}
+		r.held = append(r.held, h)
+	}
+	if n := len(r.held); n > 400 {
+		r.held = append([]c30Held{}, r.held[n-400:]...)
+	}
+}
+
+// recheck: packets handed out by earlier ops must still be what they were.
+func (r *c30Runner) recheck(o *Oracle) {
+	for i, h := range r.held {
+		ok, what := h.unchanged(!h.big)
+		o.Check(ok, c30HeldKey, "a packet returned %d packets ago (earlier op) changed: %s", len(r.held)-i, what)
+		if !ok {
+			r.held = nil // report once
+			return
+		}
 	}
 }
 
@@ -207,12 +310,16 @@ func c30Same(p c30Pkt, g c30Got) bool {
 		bytes.Equal(g.ext, p.ext[:e]) && g.hash == h.Sum64()
 }
 
-type c30Runner struct{}
+type c30Runner struct {
+	pr   *network.PacketReader
+	held []c30Held
+}
 
-func (c30Runner) Step(t []string, o *Oracle) string {
+func (r *c30Runner) Step(t []string, o *Oracle) string {
 	if len(t) < 2 {
 		return "bad-op"
 	}
+	defer r.recheck(o)
 	parsePkts := func(ts []string) ([]c30Pkt, bool) {
 		if len(ts) == 0 {
 			return nil, false
@@ -253,10 +360,10 @@ func (c30Runner) Step(t []string, o *Oracle) string {
 		if !ok {
 			return "bad-op"
 		}
-		got, st := c30Read(unhx(t[2]), sizes)
+		got, st := r.read(unhx(t[2]), sizes, o)
 		o.Count("rd-" + st)
 		// chunking independence on arbitrary input
-		got1, st1 := c30Read(unhx(t[2]), []int{1})
+		got1, st1 := r.read(unhx(t[2]), []int{1}, o)
 		o.Check(c30Show(got, st) == c30Show(got1, st1), "chunking-changes-result", "sizes %v: %s ; 1-byte chunks: %s", sizes, st, st1)
 		return c30Show(got, st)
 	case "rt":
@@ -272,7 +379,7 @@ func (c30Runner) Step(t []string, o *Oracle) string {
 		if err != nil {
 			return "err"
 		}
-		got, st := c30Read(w, sizes)
+		got, st := r.read(w, sizes, o)
 		good := st == "eof" && len(got) == len(ps)
 		for i := 0; good && i < len(ps); i++ {
 			if len(ps[i].ext) > 1023 {
@@ -281,7 +388,7 @@ func (c30Runner) Step(t []string, o *Oracle) string {
 			good = c30Same(ps[i], got[i])
 		}
 		o.Check(good, "roundtrip-differs", "%d packets written, read back %d packets, status %s (sizes %v)", len(ps), len(got), st, sizes)
-		got1, st1 := c30Read(w, []int{1})
+		got1, st1 := r.read(w, []int{1}, o)
 		o.Check(c30Show(got, st) == c30Show(got1, st1), "chunking-changes-result", "sizes %v vs 1-byte chunks differ", sizes)
 		for _, p := range ps {
 			switch {
@@ -317,7 +424,7 @@ func (c30Runner) Step(t []string, o *Oracle) string {
 			return "bad-op"
 		}
 		w[pos] = byte(nb)
-		got, st := c30Read(w, sizes)
+		got, st := r.read(w, sizes, o)
 		// which packet, which region
 		j, off := 0, int(pos)
 		for ; j < len(ps); j++ {
@@ -506,10 +613,31 @@ func c30MaxCases(g *Gen) int {
 	return len(lens)
 }
 
+// c30ManySources: one stream of 101..300 tiny packets, each from a different source
+// (more sources than any id cache holds); all packets are held until the stream ends.
+func c30ManySources(g *Gen) {
+	n := 101 + g.Intn(200)
+	ps := make([]c30Pkt, n)
+	for i := range ps {
+		ps[i] = c30GenPkt(g, true)
+		ps[i].payload = g.Bytes(g.Intn(3))
+		ps[i].ext = nil
+		if g.Intn(10) == 0 && i > 0 {
+			ps[i].src = ps[g.Intn(i)].src // some sources come back
+		}
+	}
+	g.Emit("rt %s %s", c30GenSizes(g), c30PktList(ps))
+}
+
 func c30Gen(g *Gen) {
 	emitted := c30MaxCases(g)
+	c30ManySources(g)
+	emitted++
 	for emitted < g.N {
 		switch r := g.Intn(100); {
+		case r < 1:
+			c30ManySources(g)
+			emitted++
 		case r < 30:
 			n := 1 + g.Intn(4)
 			var ps []c30Pkt
